@@ -40,3 +40,9 @@ theories/L1h/SimBase.vos theories/L1h/SimBase.vok theories/L1h/SimBase.required_
 theories/L1h/Sim.vo theories/L1h/Sim.glob theories/L1h/Sim.v.beautified theories/L1h/Sim.required_vo: theories/L1h/Sim.v theories/L1/Model.vo theories/L1/Own.vo theories/L1/Shape.vo theories/L1/Stuck.vo theories/L1h/Hist.vo theories/L1h/Abs.vo theories/L1h/SimBase.vo
 theories/L1h/Sim.vio: theories/L1h/Sim.v theories/L1/Model.vio theories/L1/Own.vio theories/L1/Shape.vio theories/L1/Stuck.vio theories/L1h/Hist.vio theories/L1h/Abs.vio theories/L1h/SimBase.vio
 theories/L1h/Sim.vos theories/L1h/Sim.vok theories/L1h/Sim.required_vos: theories/L1h/Sim.v theories/L1/Model.vos theories/L1/Own.vos theories/L1/Shape.vos theories/L1/Stuck.vos theories/L1h/Hist.vos theories/L1h/Abs.vos theories/L1h/SimBase.vos
+theories/L1h/HistFacts.vo theories/L1h/HistFacts.glob theories/L1h/HistFacts.v.beautified theories/L1h/HistFacts.required_vo: theories/L1h/HistFacts.v theories/L1/Model.vo theories/L1h/Hist.vo
+theories/L1h/HistFacts.vio: theories/L1h/HistFacts.v theories/L1/Model.vio theories/L1h/Hist.vio
+theories/L1h/HistFacts.vos theories/L1h/HistFacts.vok theories/L1h/HistFacts.required_vos: theories/L1h/HistFacts.v theories/L1/Model.vos theories/L1h/Hist.vos
+theories/L1h/AInv.vo theories/L1h/AInv.glob theories/L1h/AInv.v.beautified theories/L1h/AInv.required_vo: theories/L1h/AInv.v theories/L1/Model.vo theories/L1h/Hist.vo theories/L1h/Abs.vo theories/L1h/HistFacts.vo
+theories/L1h/AInv.vio: theories/L1h/AInv.v theories/L1/Model.vio theories/L1h/Hist.vio theories/L1h/Abs.vio theories/L1h/HistFacts.vio
+theories/L1h/AInv.vos theories/L1h/AInv.vok theories/L1h/AInv.required_vos: theories/L1h/AInv.v theories/L1/Model.vos theories/L1h/Hist.vos theories/L1h/Abs.vos theories/L1h/HistFacts.vos
